@@ -88,7 +88,10 @@ BREAKING = [
     ('c03-eval-after-advance', ['C03', 'C08'], [(A, "        imm = eval_immediate(item, position, env)", "        imm = eval_immediate(item, position + item.size(), env)")]),
     ('c03-rebind-labels', ['C03'], [(A, "def resolve_aligns(items, labels):\n    position = 0", "def resolve_aligns(items, labels):\n    labels = dict(labels)\n    position = 0")]),
     ('c03-near-call-lo', ['C03', 'C05', 'C07'], [(A, "inst = JTypeInstruction(item.line, 'jal', rd='x1', imm=imm)", "inst = JTypeInstruction(item.line, 'jal', rd='x1', imm=Lo(imm))", 1)]),
-    ('c03-pred-raw-eval', ['C03', 'C04'], [(A, "            imm = eval_immediate(i, p, e)\n            return imm == value", "            imm = i.imm.eval(p, e, i.line)\n            return imm == value")]),
+    # (since fix 075cc1d ImmEquals no longer goes through eval_immediate; the predicate that decides c.jr / c.jalr evaluating
+    #  against the live label table again is the reverse of that fix)
+    ('c03-pred-raw-eval', ['C03', 'C04'], [(A, "            if not isinstance(i.imm, Arithmetic):\n                return False\n            try:\n                imm = i.imm.eval(p, constants, i.line)\n            except AssemblerError:\n                return False\n            return imm == value",
+                                             "            imm = i.imm.eval(p, e, i.line)\n            return imm == value")]),
     ('c03-auipc-post-adjust', ['C03'], [(A, "    if getattr(item, 'is_auipc_jump', False):\n        position = position - 4\n    return item.imm.eval(position, env, item.line)", "    value = item.imm.eval(position, env, item.line)\n    if getattr(item, 'is_auipc_jump', False):\n        value = value + 4\n    return value")]),
     ('c03-auipc-wrong-origin', ['C03'], [(A, "        position = position - 4\n    return item.imm.eval", "        position = position - 2\n    return item.imm.eval")]),
     ('c03-aligns-late', ['C03', 'C08'], [(A, "    items = resolve_aligns(items, labels)\n    items = resolve_immediates(items, constants, labels)", "    items = resolve_immediates(items, constants, labels)\n    items = resolve_aligns(items, labels)")]),
@@ -111,7 +114,7 @@ BREAKING = [
     ('c04-cjalr-rd0', ['C04'], [(A, "        'c.jalr': [\n            NameEquals('jalr'),\n            RegEquals('rd', 1),", "        'c.jalr': [\n            NameEquals('jalr'),\n            RegEquals('rd', 0),")]),
     ('c04-cswsp-no-div', ['C04', 'C12'], [(A, "        'c.swsp': [\n            NameEquals('sw'),\n            RegEquals('rs1', 2),\n            ImmDivisibleBy(4),", "        'c.swsp': [\n            NameEquals('sw'),\n            RegEquals('rs1', 2),")]),
     ('c04-factory-between', ['C20'], [(A, "            return reg >= lo and reg <= hi", "            return reg > lo and reg <= hi")]),
-    ('c04-factory-imm-ne', ['C04'], [(A, "            return imm != value", "            return imm == value")]),
+    ('c04-factory-imm-ne', ['C04'], [(A, "            return imm is not None and imm != value", "            return imm is not None and imm == value")]),
     ('c04-shrink-wrong-pass-order', ['C04', 'C20'], [(A, "    items = resolve_register_aliases(items, constants)\n    if compress:\n        items = transform_compressible(items, constants, labels)\n    items = resolve_aligns(items, labels)", "    items = resolve_register_aliases(items, constants)\n    items = resolve_aligns(items, labels)")]),
     ('c04-mv-alt-wrong', ['C04'], [(A, "                inst = CRTypeInstruction(item.line, compressed, item.rd, item.rs1)", "                inst = CRTypeInstruction(item.line, compressed, item.rs1, item.rd)")]),
     ('c04-candi-shamt', ['C12'], [(A, "            elif compressed == 'c.andi':\n                inst = CBTypeInstruction(item.line, compressed, item.rd, item.imm)", "            elif compressed == 'c.andi':\n                inst = CBTypeInstruction(item.line, compressed, item.rd, Arithmetic(item.imm))")]),
@@ -197,6 +200,26 @@ BREAKING = [
     ('c15-line-wrong-path', ['C15'], [(A, "        path = path_or_source\n        with open(path) as f:", "        path = os.path.basename(path_or_source)\n        with open(path_or_source) as f:")]),
     ('c15-new-int', ['C15'], [(A, "        blob = Blob(item.line, item.value.encode('utf-8'))", "        blob = Blob(item.line, item.value.encode('utf-8') * int(item.value[:0] or '1', base=0))")]),
     ('c15-immediate-str-line', ['C15'], [(A, "        raise AssemblerError('empty immediate value', line)", "        raise AssemblerError('empty immediate value', str(line))")]),
+    # idioms of the abstract-interpretation engine: context managers, closures, dispatch, provenance of the size token
+    ('c15-ctx-wrong-type', ['C15'], [(A, 'def log_constant(pass_name, item, value):', 'import contextlib\n\n\n@contextlib.contextmanager\ndef assembler_errors(line, exc_type):\n    try:\n        yield\n    except exc_type as e:\n        raise AssemblerError(str(e), line)\n\n\ndef log_constant(pass_name, item, value):'), (A, '        try:\n            # atomic insts expect aq and rl as kwargs\n            if isinstance(item, ATypeInstruction) or isinstance(item, ALTypeInstruction):\n                *args, aq, rl = item.args()\n                code = encode_func(*args, aq=aq, rl=rl)\n            else:\n                args = item.args()\n                code = encode_func(*args)\n        except ValueError as e:\n            raise AssemblerError(str(e), item.line)\n', '        with assembler_errors(item.line, KeyError):\n            # atomic insts expect aq and rl as kwargs\n            if isinstance(item, (ATypeInstruction, ALTypeInstruction)):\n                *args, aq, rl = item.args()\n                code = encode_func(*args, aq=aq, rl=rl)\n            else:\n                code = encode_func(*item.args())\n')]),
+    ('c15-ctx-line-none', ['C15'], [(A, 'def log_constant(pass_name, item, value):', 'import contextlib\n\n\n@contextlib.contextmanager\ndef assembler_errors(line, exc_type):\n    try:\n        yield\n    except exc_type as e:\n        raise AssemblerError(str(e), line)\n\n\ndef log_constant(pass_name, item, value):'), (A, '        try:\n            # atomic insts expect aq and rl as kwargs\n            if isinstance(item, ATypeInstruction) or isinstance(item, ALTypeInstruction):\n                *args, aq, rl = item.args()\n                code = encode_func(*args, aq=aq, rl=rl)\n            else:\n                args = item.args()\n                code = encode_func(*args)\n        except ValueError as e:\n            raise AssemblerError(str(e), item.line)\n', '        with assembler_errors(None, ValueError):\n            # atomic insts expect aq and rl as kwargs\n            if isinstance(item, (ATypeInstruction, ALTypeInstruction)):\n                *args, aq, rl = item.args()\n                code = encode_func(*args, aq=aq, rl=rl)\n            else:\n                code = encode_func(*item.args())\n')]),
+    ('c15-ctx-relabel', ['C15'], [(A, 'def log_constant(pass_name, item, value):', 'import contextlib\n\n\n@contextlib.contextmanager\ndef assembler_errors(line, exc_type):\n    try:\n        yield\n    except exc_type as e:\n        raise AssemblerError(str(e), line)\n\n\ndef log_constant(pass_name, item, value):'), (A, '            include_lines = read_lines(include_path, include=True, include_dirs=include_dirs)\n            lines.extend(include_lines)', '            with assembler_errors(line, Exception):\n                include_lines = read_lines(include_path, include=True, include_dirs=include_dirs)\n            lines.extend(include_lines)')]),
+    ('c15-closure-blob-none', ['C15'], [(A, "def resolve_strings(items):\n    new_items = []\n    for item in items:\n        if not isinstance(item, String):\n            new_items.append(item)\n            continue\n\n        blob = Blob(item.line, item.value.encode('utf-8'))\n        new_items.append(blob)\n\n        log_conversion('resolve_strings', item, blob)\n\n    return new_items\n", "def convert_items(pass_name, items, item_type, convert):\n    out = []\n    for item in items:\n        if isinstance(item, item_type):\n            new_item = convert(item)\n            out.append(new_item)\n            log_conversion(pass_name, item, new_item)\n        else:\n            out.append(item)\n    return out\n\n\ndef resolve_strings(items):\n    def encode(item):\n        return Blob(None, item.value.encode('utf-8'))\n\n    return convert_items('resolve_strings', items, String, encode)\n")]),
+    ('c15-lookup-other-field', ['C15'], [(A, "                inst = CBTypeInstruction(item.line, compressed, item.rd, Arithmetic(str(lookup_register(item.rs2))))\n            elif compressed == 'c.srai':", "                inst = CBTypeInstruction(item.line, compressed, item.rd, Arithmetic(str(lookup_register(item.name))))\n            elif compressed == 'c.srai':")]),
+    ('c15-lookup-undominated', ['C15'], [(A, "            RegsMatch('rd', 'rs1'),\n            RegNotEquals('rs2', 0),\n            RegBetween('rs2', 0, 2**5 - 1),\n        ],\n        'c.lwsp': [", "            RegsMatch('rd', 'rs1'),\n        ],\n        'c.lwsp': [")]),
+    ('c15-size-token-first', ['C15'], [(A, '        _, path, size = tokens\n        size = int(size, base=0)\n', '        _, size, path = tokens\n        size = int(size, base=0)\n')]),
+    ('c15-size-not-appended', ['C15'], [(A, "            line.contents = '{} {}'.format(raw_line, size)", "            line.contents = '{} {}'.format(raw_line, rel_path)")]),
+    ('c15-align-int-unguarded', ['C15'], [(A, "        try:\n            alignment = int(alignment, base=0)\n        except ValueError:\n            raise AssemblerError('alignment must be an integer', line)", '        alignment = int(alignment, base=0)')]),
+    ('c15-step-table-skips-pass', ['C15'], [(A, '    items = resolve_strings(items)\n    items = resolve_sequences(items)\n', '    for step in (resolve_sequences,):\n        items = step(items)\n')]),
+    ('c15-generator-blob-none', ['C15'], [(A, "def resolve_strings(items):\n    new_items = []\n    for item in items:\n        if not isinstance(item, String):\n            new_items.append(item)\n            continue\n\n        blob = Blob(item.line, item.value.encode('utf-8'))\n        new_items.append(blob)\n\n        log_conversion('resolve_strings', item, blob)\n\n    return new_items\n", "def resolve_strings(items):\n    for item in items:\n        if not isinstance(item, String):\n            yield item\n            continue\n\n        blob = Blob(None, item.value.encode('utf-8'))\n        log_conversion('resolve_strings', item, blob)\n        yield blob\n")]),
+    ('c15-generator-drops-conversion', ['C15'], [(A, "def resolve_strings(items):\n    new_items = []\n    for item in items:\n        if not isinstance(item, String):\n            new_items.append(item)\n            continue\n\n        blob = Blob(item.line, item.value.encode('utf-8'))\n        new_items.append(blob)\n\n        log_conversion('resolve_strings', item, blob)\n\n    return new_items\n", 'def resolve_strings(items):\n    for item in items:\n        yield item\n')]),
+    ('c15-class-ctx-wrong-type', ['C15'], [(A, 'def log_constant(pass_name, item, value):', 'class LineErrors:\n    """re-raise the given low-level errors of the enclosed block as AssemblerErrors of a line"""\n\n    def __init__(self, line, *types):\n        self.line = line\n        self.types = types\n\n    def __enter__(self):\n        return self\n\n    def __exit__(self, exc_type, exc, tb):\n        if exc_type is not None and issubclass(exc_type, self.types):\n            raise AssemblerError(str(exc), self.line) from exc\n        return False\n\n\ndef log_constant(pass_name, item, value):'), (A, '        try:\n            # atomic insts expect aq and rl as kwargs\n            if isinstance(item, ATypeInstruction) or isinstance(item, ALTypeInstruction):\n                *args, aq, rl = item.args()\n                code = encode_func(*args, aq=aq, rl=rl)\n            else:\n                args = item.args()\n                code = encode_func(*args)\n        except ValueError as e:\n            raise AssemblerError(str(e), item.line)\n', '        with LineErrors(item.line, KeyError):\n            # atomic insts expect aq and rl as kwargs\n            if isinstance(item, (ATypeInstruction, ALTypeInstruction)):\n                *args, aq, rl = item.args()\n                code = encode_func(*args, aq=aq, rl=rl)\n            else:\n                code = encode_func(*item.args())\n')]),
+    ('c15-class-ctx-no-line', ['C15'], [(A, 'def log_constant(pass_name, item, value):', 'class LineErrors:\n    """re-raise the given low-level errors of the enclosed block as AssemblerErrors of a line"""\n\n    def __init__(self, line, *types):\n        self.line = line\n        self.types = types\n\n    def __enter__(self):\n        return self\n\n    def __exit__(self, exc_type, exc, tb):\n        if exc_type is not None and issubclass(exc_type, self.types):\n            raise AssemblerError(str(exc), None) from exc\n        return False\n\n\ndef log_constant(pass_name, item, value):'), (A, '        try:\n            # atomic insts expect aq and rl as kwargs\n            if isinstance(item, ATypeInstruction) or isinstance(item, ALTypeInstruction):\n                *args, aq, rl = item.args()\n                code = encode_func(*args, aq=aq, rl=rl)\n            else:\n                args = item.args()\n                code = encode_func(*args)\n        except ValueError as e:\n            raise AssemblerError(str(e), item.line)\n', '        with LineErrors(item.line, ValueError):\n            # atomic insts expect aq and rl as kwargs\n            if isinstance(item, (ATypeInstruction, ALTypeInstruction)):\n                *args, aq, rl = item.args()\n                code = encode_func(*args, aq=aq, rl=rl)\n            else:\n                code = encode_func(*item.args())\n')]),
+    ('c15-decorator-wrong-type', ['C15'], [(A, 'def resolve_instructions(items):', 'def converts_value_errors(fn):\n    def wrapper(item):\n        try:\n            return fn(item)\n        except KeyError as e:\n            raise AssemblerError(str(e), item.line)\n    return wrapper\n\n\n@converts_value_errors\ndef encode_item(item):\n    encode_func = INSTRUCTIONS[item.name]\n    if isinstance(item, (ATypeInstruction, ALTypeInstruction)):\n        *args, aq, rl = item.args()\n        return encode_func(*args, aq=aq, rl=rl)\n    return encode_func(*item.args())\n\n\ndef resolve_instructions(items):'), (A, '        encode_func = INSTRUCTIONS[item.name]\n        try:\n            # atomic insts expect aq and rl as kwargs\n            if isinstance(item, ATypeInstruction) or isinstance(item, ALTypeInstruction):\n                *args, aq, rl = item.args()\n                code = encode_func(*args, aq=aq, rl=rl)\n            else:\n                args = item.args()\n                code = encode_func(*args)\n        except ValueError as e:\n            raise AssemblerError(str(e), item.line)\n', '        code = encode_item(item)\n')]),
+    ('c15-registry-misses-pass', ['C15'], [(A, 'def resolve_strings(items):', 'LATE_PASSES = []\n\n\ndef late_pass(fn):\n    LATE_PASSES.append(fn)\n    return fn\n\n\n@late_pass\ndef resolve_strings(items):'), (A, 'def resolve_sequences(items):', '@late_pass\ndef resolve_sequences(items):'), (A, 'def transform_shorthand_packs(items):', '@late_pass\ndef transform_shorthand_packs(items):'), (A, 'def resolve_include_bytes(items):', '@late_pass\ndef resolve_include_bytes(items):'), (A, '    items = resolve_strings(items)\n    items = resolve_sequences(items)\n    items = transform_shorthand_packs(items)\n    items = resolve_packs(items)\n    items = resolve_include_bytes(items)\n', '    for late in LATE_PASSES:\n        items = late(items)\n')]),
+    ('c15-reduce-misses-pass', ['C15'], [(A, '    items = resolve_strings(items)\n    items = resolve_sequences(items)\n    items = transform_shorthand_packs(items)\n    items = resolve_packs(items)\n    items = resolve_include_bytes(items)\n', '    import functools\n    late = [resolve_strings, resolve_sequences, transform_shorthand_packs, resolve_include_bytes]\n    items = functools.reduce(lambda acc, step: step(acc), late, items)\n')]),
+    ('c15-callable-pass-no-line', ['C15'], [(A, "def resolve_strings(items):\n    new_items = []\n    for item in items:\n        if not isinstance(item, String):\n            new_items.append(item)\n            continue\n\n        blob = Blob(item.line, item.value.encode('utf-8'))\n        new_items.append(blob)\n\n        log_conversion('resolve_strings', item, blob)\n\n    return new_items\n", "class StringResolver:\n    def __init__(self, encoding):\n        self.encoding = encoding\n\n    def __call__(self, items):\n        new_items = []\n        for item in items:\n            if isinstance(item, String):\n                blob = Blob(None, item.value.encode(self.encoding))\n                log_conversion('resolve_strings', item, blob)\n                new_items.append(blob)\n            else:\n                new_items.append(item)\n        return new_items\n\n\nresolve_strings = StringResolver('utf-8')\n")]),
+    ('c15-located-wrong-type', ['C15'], [(A, 'def resolve_instructions(items):', 'def located(fn, line, *args, **kwargs):\n    try:\n        return fn(*args, **kwargs)\n    except KeyError as e:\n        raise AssemblerError(str(e), line)\n\n\ndef resolve_instructions(items):'), (A, '        try:\n            # atomic insts expect aq and rl as kwargs\n            if isinstance(item, ATypeInstruction) or isinstance(item, ALTypeInstruction):\n                *args, aq, rl = item.args()\n                code = encode_func(*args, aq=aq, rl=rl)\n            else:\n                args = item.args()\n                code = encode_func(*args)\n        except ValueError as e:\n            raise AssemblerError(str(e), item.line)\n', '        # atomic insts expect aq and rl as kwargs\n        if isinstance(item, (ATypeInstruction, ALTypeInstruction)):\n            *args, aq, rl = item.args()\n            code = located(encode_func, item.line, *args, aq=aq, rl=rl)\n        else:\n            code = located(encode_func, item.line, *item.args())\n')]),
     # ---- C16 --------------------------------------------------------------------------------------------------
     ('c16-mutable-default', ['C16'], [(A, "def assemble(path_or_source, *, constants=None, labels=None, compress=False, include_dirs=None):", "def assemble(path_or_source, *, constants={}, labels={}, compress=False, include_dirs=None):")]),
     ('c16-registers-alias', ['C16'], [(A, "        constants[item.name] = value\n", "        constants[item.name] = value\n        REGISTERS[item.name] = value\n")]),
@@ -248,6 +271,41 @@ BREAKING = [
     ('c13-split-semicolon', ['C13'], [(A, "    tokens = re.split(r'[\\s,]+', contents)", "    tokens = re.split(r'[\\s,;]+', contents)")]),
     ('c13-comment-pattern', ['C13'], [(A, "    contents = re.sub(r'#.*$', r'', line.contents)", "    contents = re.sub(r'#.$', r'', line.contents)")]),
     ('c13-numbering-filtered', ['C13', 'C15'], [(A, "    for i, raw_line in enumerate(source.splitlines(), start=1):", "    for i, raw_line in enumerate([l for l in source.splitlines() if l.strip()], start=1):")]),
+    # ---- C17: event-based rules (helpers, templates, conversions) ------------------------------------------------
+    ('c17-hex-convert-late', ['C17'], [(A, "    hex_offset = None\n    if args.hex_offset:\n        try:\n            hex_offset = int(args.hex_offset, base=0)\n        except:\n            raise SystemExit('invalid hex offset: {}'.format(args.hex_offset))\n", ""),
+                                       (A, "        bin2hex(args.output, args.output + '.hex', hex_offset)", "        bin2hex(args.output, args.output + '.hex', int(args.hex_offset, base=0))")]),
+    ('c17-helper-open-before-asm', ['C17'], [(A, "def cli_main():\n", "def prepare_output(path):\n    return open(path, 'wb')\n\n\ndef cli_main():\n"),
+                                             (A, "    constants = {}\n    labels = {}\n    try:\n        input_asm = os.path.abspath(args.input_asm)", "    sink = prepare_output(args.output)\n    sink.close()\n    constants = {}\n    labels = {}\n    try:\n        input_asm = os.path.abspath(args.input_asm)")]),
+    ('c17-labels-append-mode', ['C17'], [(A, "        with open(args.labels, 'w') as f:", "        with open(args.labels, 'a') as f:")]),
+    ('c17-hex-base16', ['C17'], [(A, "            hex_offset = int(args.hex_offset, base=0)", "            hex_offset = int(args.hex_offset, base=16)")]),
+    ('c17-labels-wrong-dict', ['C17'], [(A, "        lines = ['{} 0x{:08x}\\n'.format(k, v) for k, v in labels.items()]", "        lines = ['{} 0x{:08x}\\n'.format(k, v) for k, v in constants.items()]")]),
+    ('c17-sys-exit-0', ['C17'], [(A, "    except AssemblerError as e:\n        raise SystemExit(e)", "    except AssemblerError as e:\n        print(e)\n        sys.exit(0)")]),
+    ('c17-labels-no-newline', ['C17'], [(A, "        lines = ['{} 0x{:08x}\\n'.format(k, v) for k, v in labels.items()]", "        lines = [f'{k} 0x{v:08x}' for k, v in labels.items()]")]),
+    ('c17-labels-loop-value-only', ['C17'], [(A, "        lines = ['{} 0x{:08x}\\n'.format(k, v) for k, v in labels.items()]\n        with open(args.labels, 'w') as f:\n            f.writelines(lines)",
+                                             "        with open(args.labels, 'w') as f:\n            for k, v in labels.items():\n                f.write('0x%08x\\n' % v)")]),
+    ('c17-helper-write-len', ['C17'], [(A, "def cli_main():\n", "def write_binary(path, data):\n    with open(path, 'wb') as handle:\n        handle.write(data[:-1])\n\n\ndef cli_main():\n"),
+                                       (A, "    with open(args.output, 'wb') as out_bin:\n        out_bin.write(binary)\n", "    write_binary(args.output, binary)\n")]),
+    # ---- C16: per-call tables ---------------------------------------------------------------------------------------
+    ('c16-shared-fallback', ['C16'], [(A, "def assemble(path_or_source, *, constants=None, labels=None, compress=False, include_dirs=None):", "_DEFAULT_CONSTANTS = {}\n\n\ndef assemble(path_or_source, *, constants=None, labels=None, compress=False, include_dirs=None):"),
+                                      (A, "    constants = constants if constants is not None else {}", "    constants = constants if constants is not None else _DEFAULT_CONSTANTS")]),
+    ('c16-shared-fallback-helper', ['C16'], [(A, "def assemble(path_or_source, *, constants=None, labels=None, compress=False, include_dirs=None):", "_SHARED_LABELS = {}\n\n\ndef _table(given):\n    if given is None:\n        return _SHARED_LABELS\n    return given\n\n\ndef assemble(path_or_source, *, constants=None, labels=None, compress=False, include_dirs=None):"),
+                                             (A, "    labels = labels if labels is not None else {}", "    labels = _table(labels)")]),
+    ('c16-eval-globals-shared-unpinned', ['C16', 'C11'], [(A, "# basic arithmetic expression\n", "EVAL_GLOBALS = {}\n\n\n# basic arithmetic expression\n"),
+                                                          (A, "            result = eval(self.expr, {'__builtins__': None}, env)", "            result = eval(self.expr, EVAL_GLOBALS, env)")]),
+    # ---- C11: dataflow rules ----------------------------------------------------------------------------------------------
+    ('c11-hi-raw', ['C11'], [(A, "        return Hi(parse_immediate(imm, line))", "        return Hi(' '.join(imm))")]),
+    ('c11-shift-raw-field', ['C11', 'C12'], [(A, "                inst = CITypeInstruction(item.line, compressed, item.rd, Arithmetic(str(lookup_register(item.rs2))))", "                inst = CITypeInstruction(item.line, compressed, item.rd, Arithmetic(item.rs2))")]),
+    ('c11-isinstance-int-only', ['C11'], [(A, "        if type(result) != int:", "        if not isinstance(result, int):")]),
+    ('c11-env-order', ['C11'], [(A, "        # resolve the immediate field\n        env = ChainMap(constants, labels)", "        # resolve the immediate field\n        env = ChainMap(labels, constants)")]),
+    ('c11-constants-late', ['C11'], [(A, "    items = resolve_constants(items, constants)\n    items = resolve_labels(items, labels)\n    items = resolve_register_aliases(items, constants)\n", "    items = resolve_labels(items, labels)\n    items = resolve_register_aliases(items, constants)\n    items = resolve_constants(items, constants)\n")]),
+    ('c11-loop-alias-after-compress', ['C11'], [(A, "    items = resolve_constants(items, constants)\n    items = resolve_labels(items, labels)\n    items = resolve_register_aliases(items, constants)\n    if compress:\n        items = transform_compressible(items, constants, labels)\n    items = transform_pseudo_instructions(items, constants, labels)\n    items = resolve_register_aliases(items, constants)\n    if compress:\n        items = transform_compressible(items, constants, labels)\n",
+                                                 "    squeeze = [lambda its: transform_compressible(its, constants, labels)] if compress else []\n    steps = [lambda its: resolve_constants(its, constants), lambda its: resolve_labels(its, labels), lambda its: resolve_register_aliases(its, constants)]\n    steps += squeeze\n    steps.append(lambda its: transform_pseudo_instructions(its, constants, labels))\n    steps += squeeze\n    steps.append(lambda its: resolve_register_aliases(its, constants))\n    for step in steps:\n        items = step(items)\n")]),
+    ('c11-regs-module-missing', ['C11'], [(A, "def resolve_register_aliases(items, constants):\n    REGS = {'rd', 'rs1', 'rs2', 'rd_rs1'}\n", "REGISTER_FIELDS = frozenset({'rd', 'rs1', 'rd_rs1'})\n\n\ndef resolve_register_aliases(items, constants):\n    REGS = REGISTER_FIELDS\n")]),
+    ('c11-eval-other-field', ['C11'], [(A, "            result = eval(self.expr, {'__builtins__': None}, env)", "            result = eval(self.expr, {'__builtins__': None}, {})")]),
+    ('c11-alias-dictcomp-truthy', ['C11'], [(A, "    REGS = {'rd', 'rs1', 'rs2', 'rd_rs1'}\n\n    new_items = []\n    for item in items:\n        d = copy.deepcopy(vars(item))\n\n        # skip items without any register fields\n        if not set(d.keys()) & REGS:\n            new_items.append(item)\n            continue\n\n        # resolve all fields that are registers\n        modified = False\n        resolved_regs = {}\n        for key, value in d.items():\n            # skip if item field is not a register\n            if key not in REGS:\n                continue\n            # skip if reg is not a constant\n            if value not in constants:\n                continue\n            # reg IS a constant\n            modified = True\n            reg = constants[value]\n            resolved_regs[key] = reg\n\n        if not modified:\n            new_items.append(item)\n            continue\n\n        d.update(resolved_regs)\n", "    REGS = ('rd', 'rs1', 'rs2', 'rd_rs1')\n\n    new_items = []\n    for item in items:\n        d = copy.deepcopy(vars(item))\n\n        # register fields that name a constant\n        resolved_regs = {key: constants.get(value) for key, value in d.items() if key in REGS and constants.get(value)}\n        if not resolved_regs:\n            new_items.append(item)\n            continue\n\n        d.update(resolved_regs)\n")]),
+    ('c16-loop-pass-module-write', ['C16'], [(A, "    items = resolve_instructions(items)\n    items = resolve_strings(items)\n    items = resolve_sequences(items)\n    items = transform_shorthand_packs(items)\n    items = resolve_packs(items)\n    items = resolve_include_bytes(items)\n",
+                                             "    for step in (resolve_instructions, resolve_strings, resolve_sequences, transform_shorthand_packs, resolve_packs, resolve_include_bytes):\n        items = step(items)\n"),
+                                            (A, "def resolve_strings(items):\n    new_items = []", "def resolve_strings(items):\n    KEYWORDS.add('string')\n    new_items = []")]),
 ]
 
 PRESERVING = [
@@ -298,12 +356,86 @@ PRESERVING = [
                                  "def resolve_aligns(items, labels):\n    offset = 0\n    new_items = []\n    for item in items:\n        if not isinstance(item, Align):\n            offset += item.size()\n            new_items.append(item)\n            continue\n\n        # determine actual padding and amount to shrink subsequent labels\n        padding = item.resolution_size(offset)\n        shrink = item.size() - padding \n\n        # shrink subsequent labels\n        new_labels = {k: v - shrink for k, v in labels.items() if v > offset}\n        labels.update(new_labels)\n\n        # skip if already aligned\n        if padding == 0:\n            continue\n\n        offset += padding")]),
     ('p-extra-mnemonic', None, [(A, "C_SWSP     = partial(css_type, opcode=0b10, funct3=0b110)\n", "C_SWSP     = partial(css_type, opcode=0b10, funct3=0b110)\nC_FSWSP    = partial(css_type, opcode=0b10, funct3=0b111)\n"),
                                 (A, "CSS_TYPE_INSTRUCTIONS = {\n    'c.swsp':     C_SWSP,\n}", "CSS_TYPE_INSTRUCTIONS = {\n    'c.swsp':     C_SWSP,\n    'c.fswsp':    C_FSWSP,\n}")]),
+    # ---- C15: idioms the abstract interpretation understands (restricted to C15: other engines need not follow them) ----
+    ('p15-ctx-manager', ['C15'], [(A, 'def log_constant(pass_name, item, value):', 'import contextlib\n\n\n@contextlib.contextmanager\ndef assembler_errors(line, exc_type):\n    try:\n        yield\n    except exc_type as e:\n        raise AssemblerError(str(e), line)\n\n\ndef log_constant(pass_name, item, value):'), (A, '        try:\n            # atomic insts expect aq and rl as kwargs\n            if isinstance(item, ATypeInstruction) or isinstance(item, ALTypeInstruction):\n                *args, aq, rl = item.args()\n                code = encode_func(*args, aq=aq, rl=rl)\n            else:\n                args = item.args()\n                code = encode_func(*args)\n        except ValueError as e:\n            raise AssemblerError(str(e), item.line)\n', '        with assembler_errors(item.line, ValueError):\n            # atomic insts expect aq and rl as kwargs\n            if isinstance(item, (ATypeInstruction, ALTypeInstruction)):\n                *args, aq, rl = item.args()\n                code = encode_func(*args, aq=aq, rl=rl)\n            else:\n                code = encode_func(*item.args())\n')]),
+    ('p15-ctx-manager-tuple', ['C15'], [(A, 'def log_constant(pass_name, item, value):', 'import contextlib\n\n\n@contextlib.contextmanager\ndef assembler_errors(line, exc_type):\n    try:\n        yield\n    except exc_type as e:\n        raise AssemblerError(str(e), line)\n\n\ndef log_constant(pass_name, item, value):'), (A, '        try:\n            # atomic insts expect aq and rl as kwargs\n            if isinstance(item, ATypeInstruction) or isinstance(item, ALTypeInstruction):\n                *args, aq, rl = item.args()\n                code = encode_func(*args, aq=aq, rl=rl)\n            else:\n                args = item.args()\n                code = encode_func(*args)\n        except ValueError as e:\n            raise AssemblerError(str(e), item.line)\n', '        with assembler_errors(item.line, (KeyError, ValueError)):\n            # atomic insts expect aq and rl as kwargs\n            if isinstance(item, (ATypeInstruction, ALTypeInstruction)):\n                *args, aq, rl = item.args()\n                code = encode_func(*args, aq=aq, rl=rl)\n            else:\n                code = encode_func(*item.args())\n')]),
+    ('p15-higher-order-pass', ['C15'], [(A, "def resolve_strings(items):\n    new_items = []\n    for item in items:\n        if not isinstance(item, String):\n            new_items.append(item)\n            continue\n\n        blob = Blob(item.line, item.value.encode('utf-8'))\n        new_items.append(blob)\n\n        log_conversion('resolve_strings', item, blob)\n\n    return new_items\n", "def convert_items(pass_name, items, item_type, convert):\n    out = []\n    for item in items:\n        if isinstance(item, item_type):\n            new_item = convert(item)\n            out.append(new_item)\n            log_conversion(pass_name, item, new_item)\n        else:\n            out.append(item)\n    return out\n\n\ndef resolve_strings(items):\n    def encode(item):\n        return Blob(item.line, item.value.encode('utf-8'))\n\n    return convert_items('resolve_strings', items, String, encode)\n")]),
+    ('p15-lookup-via-local', ['C15'], [(A, "                inst = CBTypeInstruction(item.line, compressed, item.rd, Arithmetic(str(lookup_register(item.rs2))))\n            elif compressed == 'c.srai':", "                shamt = lookup_register(item.rs2)\n                amount = Arithmetic(str(shamt))\n                inst = CBTypeInstruction(item.line, compressed, item.rd, amount)\n            elif compressed == 'c.srai':")]),
+    ('p15-lookup-via-closure', ['C15'], [(A, "                inst = CBTypeInstruction(item.line, compressed, item.rd, Arithmetic(str(lookup_register(item.rs2))))\n            elif compressed == 'c.srai':", "                def shamt_of(inst):\n                    return Arithmetic(str(lookup_register(getattr(inst, 'rs2'))))\n                inst = CBTypeInstruction(item.line, compressed, item.rd, shamt_of(item))\n            elif compressed == 'c.srai':")]),
+    ('p15-size-token-index', ['C15'], [(A, '        _, path, size = tokens\n        size = int(size, base=0)\n', '        nbytes = int(tokens[2], base=0)\n        size = nbytes\n')]),
+    ('p15-size-token-renamed', ['C15'], [(A, '        _, path, size = tokens\n        size = int(size, base=0)\n', '        keyword, where, byte_count = tokens\n        size = int(byte_count, base=0)\n')]),
+    ('p15-size-fstring', ['C15'], [(A, "            line.contents = '{} {}'.format(raw_line, size)", "            line.contents = f'{raw_line} {size}'")]),
+    ('p15-size-concat', ['C15'], [(A, "            line.contents = '{} {}'.format(raw_line, size)", "            line.contents = raw_line + ' ' + str(size)")]),
+    ('p15-line-keywords', ['C15'], [(A, '        line = Line(path, i, raw_line)', '        line = Line(file=path, number=i, contents=raw_line)')]),
+    ('p15-enumerate-plus-one', ['C15'], [(A, '    for i, raw_line in enumerate(source.splitlines(), start=1):', '    for i, raw_line in enumerate(source.splitlines()):'), (A, '        line = Line(path, i, raw_line)', '        line = Line(path, i + 1, raw_line)')]),
+    ('p15-reraise-same-line', ['C15'], [(A, '            include_lines = read_lines(include_path, include=True, include_dirs=include_dirs)\n            lines.extend(include_lines)', '            try:\n                include_lines = read_lines(include_path, include=True, include_dirs=include_dirs)\n            except AssemblerError as e:\n                raise AssemblerError(e.message, e.line)\n            lines.extend(include_lines)')]),
+    ('p15-reraise-bare', ['C15'], [(A, '            include_lines = read_lines(include_path, include=True, include_dirs=include_dirs)\n            lines.extend(include_lines)', "            try:\n                include_lines = read_lines(include_path, include=True, include_dirs=include_dirs)\n            except AssemblerError:\n                log.info('error in included file')\n                raise\n            lines.extend(include_lines)")]),
+    ('p15-step-table', ['C15'], [(A, '    items = resolve_strings(items)\n    items = resolve_sequences(items)\n', '    for step in (resolve_strings, resolve_sequences):\n        items = step(items)\n')]),
+    ('p15-blob-check-tuple', ['C15'], [(A, "        if not isinstance(item, Blob):\n            raise ValueError('expected only blobs at this point')", "        if not isinstance(item, (Blob,)):\n            raise ValueError('expected only blobs at this point')")]),
+    ('p15-lookup-get', ['C15'], [(A, "    try:\n        reg = REGISTERS[reg]\n    except KeyError:\n        raise ValueError('register must be a valid integer, name, or alias: {}'.format(reg))", "    number = REGISTERS.get(reg)\n    if number is None:\n        raise ValueError('register must be a valid integer, name, or alias: {}'.format(reg))\n    reg = number")]),
+    ('p15-generator-pass', ['C15'], [(A, "def resolve_strings(items):\n    new_items = []\n    for item in items:\n        if not isinstance(item, String):\n            new_items.append(item)\n            continue\n\n        blob = Blob(item.line, item.value.encode('utf-8'))\n        new_items.append(blob)\n\n        log_conversion('resolve_strings', item, blob)\n\n    return new_items\n", "def resolve_strings(items):\n    for item in items:\n        if not isinstance(item, String):\n            yield item\n            continue\n\n        blob = Blob(item.line, item.value.encode('utf-8'))\n        log_conversion('resolve_strings', item, blob)\n        yield blob\n")]),
+    ('p15-generator-pass-list', ['C15'], [(A, "def resolve_strings(items):\n    new_items = []\n    for item in items:\n        if not isinstance(item, String):\n            new_items.append(item)\n            continue\n\n        blob = Blob(item.line, item.value.encode('utf-8'))\n        new_items.append(blob)\n\n        log_conversion('resolve_strings', item, blob)\n\n    return new_items\n", "def resolve_strings(items):\n    for item in items:\n        if not isinstance(item, String):\n            yield item\n            continue\n\n        blob = Blob(item.line, item.value.encode('utf-8'))\n        log_conversion('resolve_strings', item, blob)\n        yield blob\n"), (A, '    items = resolve_strings(items)\n', '    items = list(resolve_strings(items))\n')]),
+    ('p15-generator-yield-from', ['C15'], [(A, "def resolve_strings(items):\n    new_items = []\n    for item in items:\n        if not isinstance(item, String):\n            new_items.append(item)\n            continue\n\n        blob = Blob(item.line, item.value.encode('utf-8'))\n        new_items.append(blob)\n\n        log_conversion('resolve_strings', item, blob)\n\n    return new_items\n", "def convert_strings(items):\n    for item in items:\n        if isinstance(item, String):\n            blob = Blob(item.line, item.value.encode('utf-8'))\n            log_conversion('resolve_strings', item, blob)\n            yield blob\n\n\ndef resolve_strings(items):\n    yield from (item for item in items if not isinstance(item, String))\n    yield from convert_strings(items)\n")]),
+    ('p15-class-ctx-manager', ['C15'], [(A, 'def log_constant(pass_name, item, value):', 'class LineErrors:\n    """re-raise the given low-level errors of the enclosed block as AssemblerErrors of a line"""\n\n    def __init__(self, line, *types):\n        self.line = line\n        self.types = types\n\n    def __enter__(self):\n        return self\n\n    def __exit__(self, exc_type, exc, tb):\n        if exc_type is not None and issubclass(exc_type, self.types):\n            raise AssemblerError(str(exc), self.line) from exc\n        return False\n\n\ndef log_constant(pass_name, item, value):'), (A, '        try:\n            # atomic insts expect aq and rl as kwargs\n            if isinstance(item, ATypeInstruction) or isinstance(item, ALTypeInstruction):\n                *args, aq, rl = item.args()\n                code = encode_func(*args, aq=aq, rl=rl)\n            else:\n                args = item.args()\n                code = encode_func(*args)\n        except ValueError as e:\n            raise AssemblerError(str(e), item.line)\n', '        with LineErrors(item.line, ValueError):\n            # atomic insts expect aq and rl as kwargs\n            if isinstance(item, (ATypeInstruction, ALTypeInstruction)):\n                *args, aq, rl = item.args()\n                code = encode_func(*args, aq=aq, rl=rl)\n            else:\n                code = encode_func(*item.args())\n')]),
+    ('p15-decorator-convert', ['C15'], [(A, 'def resolve_instructions(items):', 'def converts_value_errors(fn):\n    def wrapper(item):\n        try:\n            return fn(item)\n        except ValueError as e:\n            raise AssemblerError(str(e), item.line)\n    return wrapper\n\n\n@converts_value_errors\ndef encode_item(item):\n    encode_func = INSTRUCTIONS[item.name]\n    if isinstance(item, (ATypeInstruction, ALTypeInstruction)):\n        *args, aq, rl = item.args()\n        return encode_func(*args, aq=aq, rl=rl)\n    return encode_func(*item.args())\n\n\ndef resolve_instructions(items):'), (A, '        encode_func = INSTRUCTIONS[item.name]\n        try:\n            # atomic insts expect aq and rl as kwargs\n            if isinstance(item, ATypeInstruction) or isinstance(item, ALTypeInstruction):\n                *args, aq, rl = item.args()\n                code = encode_func(*args, aq=aq, rl=rl)\n            else:\n                args = item.args()\n                code = encode_func(*args)\n        except ValueError as e:\n            raise AssemblerError(str(e), item.line)\n', '        code = encode_item(item)\n')]),
+    ('p15-pass-registry', ['C15'], [(A, 'def resolve_strings(items):', 'LATE_PASSES = []\n\n\ndef late_pass(fn):\n    LATE_PASSES.append(fn)\n    return fn\n\n\n@late_pass\ndef resolve_strings(items):'), (A, 'def resolve_sequences(items):', '@late_pass\ndef resolve_sequences(items):'), (A, 'def transform_shorthand_packs(items):', '@late_pass\ndef transform_shorthand_packs(items):'), (A, 'def resolve_packs(items):', '@late_pass\ndef resolve_packs(items):'), (A, 'def resolve_include_bytes(items):', '@late_pass\ndef resolve_include_bytes(items):'), (A, '    items = resolve_strings(items)\n    items = resolve_sequences(items)\n    items = transform_shorthand_packs(items)\n    items = resolve_packs(items)\n    items = resolve_include_bytes(items)\n', '    for late in LATE_PASSES:\n        items = late(items)\n')]),
+    ('p15-line-dataclass', ['C15'], [(A, 'class Line:\n\n    def __init__(self, file, number, contents):\n        self.file = file\n        self.number = number\n        self.contents = contents\n        # resolved path of the file named by an include_bytes line (set by the reader)\n        self.include_path = None\n', 'import dataclasses\nimport typing\n\n\n@dataclasses.dataclass\nclass Line:\n    file: str\n    number: int\n    contents: str\n    # resolved path of the file named by an include_bytes line (set by the reader)\n    include_path: typing.Optional[str] = None\n')]),
+    ('p15-linetokens-namedtuple', ['C15'], [(A, 'class LineTokens:\n\n    def __init__(self, line, tokens):\n        self.line = line\n        self.tokens = tokens\n', 'import typing\n\n\nclass LineTokens(typing.NamedTuple):\n    line: Line\n    tokens: list\n'), (A, '    line = line_tokens.line\n    tokens = line_tokens.tokens\n', '    line, tokens = line_tokens\n')]),
+    ('p15-reduce-driver', ['C15'], [(A, '    items = resolve_strings(items)\n    items = resolve_sequences(items)\n    items = transform_shorthand_packs(items)\n    items = resolve_packs(items)\n    items = resolve_include_bytes(items)\n', '    import functools\n    late = [resolve_strings, resolve_sequences, transform_shorthand_packs, resolve_packs, resolve_include_bytes]\n    items = functools.reduce(lambda acc, step: step(acc), late, items)\n')]),
+    ('p15-callable-pass-object', ['C15'], [(A, "def resolve_strings(items):\n    new_items = []\n    for item in items:\n        if not isinstance(item, String):\n            new_items.append(item)\n            continue\n\n        blob = Blob(item.line, item.value.encode('utf-8'))\n        new_items.append(blob)\n\n        log_conversion('resolve_strings', item, blob)\n\n    return new_items\n", "class StringResolver:\n    def __init__(self, encoding):\n        self.encoding = encoding\n\n    def __call__(self, items):\n        new_items = []\n        for item in items:\n            if isinstance(item, String):\n                blob = Blob(item.line, item.value.encode(self.encoding))\n                log_conversion('resolve_strings', item, blob)\n                new_items.append(blob)\n            else:\n                new_items.append(item)\n        return new_items\n\n\nresolve_strings = StringResolver('utf-8')\n")]),
+    ('p15-located-helper', ['C15'], [(A, 'def resolve_instructions(items):', 'def located(fn, line, *args, **kwargs):\n    try:\n        return fn(*args, **kwargs)\n    except ValueError as e:\n        raise AssemblerError(str(e), line)\n\n\ndef resolve_instructions(items):'), (A, '        try:\n            # atomic insts expect aq and rl as kwargs\n            if isinstance(item, ATypeInstruction) or isinstance(item, ALTypeInstruction):\n                *args, aq, rl = item.args()\n                code = encode_func(*args, aq=aq, rl=rl)\n            else:\n                args = item.args()\n                code = encode_func(*args)\n        except ValueError as e:\n            raise AssemblerError(str(e), item.line)\n', '        # atomic insts expect aq and rl as kwargs\n        if isinstance(item, (ATypeInstruction, ALTypeInstruction)):\n            *args, aq, rl = item.args()\n            code = located(encode_func, item.line, *args, aq=aq, rl=rl)\n        else:\n            code = located(encode_func, item.line, *item.args())\n')]),
+    # ---- C17: helpers, templates, exits ------------------------------------------------------------------------------------
+    ('p-cli-write-helper', ['C17'], [(A, "def cli_main():\n", "def write_binary(path, data):\n    with open(path, 'wb') as handle:\n        handle.write(data)\n\n\ndef cli_main():\n"),
+                                     (A, "    with open(args.output, 'wb') as out_bin:\n        out_bin.write(binary)\n", "    write_binary(args.output, binary)\n")]),
+    ('p-cli-labels-fstring-loop', ['C17'], [(A, "        lines = ['{} 0x{:08x}\\n'.format(k, v) for k, v in labels.items()]\n        with open(args.labels, 'w') as f:\n            f.writelines(lines)",
+                                            "        with open(args.labels, 'w') as f:\n            for name, address in labels.items():\n                f.write(f'{name} 0x{address:08x}\\n')")]),
+    ('p-cli-labels-print', ['C17'], [(A, "        lines = ['{} 0x{:08x}\\n'.format(k, v) for k, v in labels.items()]\n        with open(args.labels, 'w') as f:\n            f.writelines(lines)",
+                                     "        with open(args.labels, 'w') as f:\n            for name, address in labels.items():\n                print('{} 0x{:08x}'.format(name, address), file=f)")]),
+    ('p-cli-labels-join', ['C17'], [(A, "            f.writelines(lines)", "            f.write(''.join(lines))")]),
+    ('p-cli-labels-append-list', ['C17'], [(A, "        lines = ['{} 0x{:08x}\\n'.format(k, v) for k, v in labels.items()]\n", "        lines = []\n        for k, v in labels.items():\n            lines.append(k + ' ' + '0x{:08x}'.format(v) + '\\n')\n")]),
+    ('p-cli-labels-keys', ['C17'], [(A, "        lines = ['{} 0x{:08x}\\n'.format(k, v) for k, v in labels.items()]\n", "        lines = ['{} 0x{:08x}\\n'.format(k, labels[k]) for k in labels]\n")]),
+    ('p-cli-sys-exit', ['C17'], [(A, "    except AssemblerError as e:\n        raise SystemExit(e)", "    except AssemblerError as e:\n        sys.exit(e)")]),
+    ('p-cli-hex-none-test', ['C17'], [(A, "    # output an additional file in the Intel HEX format at the given offset\n    if args.hex_offset:", "    # output an additional file in the Intel HEX format at the given offset\n    if hex_offset is not None:")]),
+    ('p-cli-dest-rename', ['C17'], [(A, "    parser.add_argument('-o', '--output', metavar='FILE', default='bb.out', help='output binary file (default \"bb.out\")')", "    parser.add_argument('-o', '--output', dest='out_path', metavar='FILE', default='bb.out', help='output binary file (default \"bb.out\")')"),
+                                    (A, "    with open(args.output, 'wb') as out_bin:", "    with open(args.out_path, 'wb') as out_bin:"),
+                                    (A, "        bin2hex(args.output, args.output + '.hex', hex_offset)", "        bin2hex(args.out_path, f'{args.out_path}.hex', hex_offset)")]),
+    ('p-cli-open-close', ['C17'], [(A, "    with open(args.output, 'wb') as out_bin:\n        out_bin.write(binary)\n", "    out_bin = open(args.output, 'wb')\n    out_bin.write(binary)\n    out_bin.close()\n")]),
+    ('p-cli-hex-helper', ['C17'], [(A, "def cli_main():\n", "def parse_hex_offset(text):\n    if not text:\n        return None\n    try:\n        return int(text, 0)\n    except ValueError:\n        raise SystemExit('invalid hex offset: {}'.format(text))\n\n\ndef cli_main():\n"),
+                                   (A, "    hex_offset = None\n    if args.hex_offset:\n        try:\n            hex_offset = int(args.hex_offset, base=0)\n        except:\n            raise SystemExit('invalid hex offset: {}'.format(args.hex_offset))\n", "    hex_offset = parse_hex_offset(args.hex_offset)\n")]),
+    # ---- C16 / C11: pipeline spellings, per-call tables, cwd test, eval globals --------------------------------------------------
+    ('p-asm-none-if', ['C11', 'C16'], [(A, "    constants = constants if constants is not None else {}\n    labels = labels if labels is not None else {}\n", "    if constants is None:\n        constants = {}\n    if labels is None:\n        labels = dict()\n")]),
+    ('p-asm-table-helper', ['C11', 'C16'], [(A, "def assemble(path_or_source, *, constants=None, labels=None, compress=False, include_dirs=None):", "def _table(given):\n    if given is None:\n        return {}\n    return given\n\n\ndef assemble(path_or_source, *, constants=None, labels=None, compress=False, include_dirs=None):"),
+                                            (A, "    constants = constants if constants is not None else {}\n    labels = labels if labels is not None else {}\n", "    constants = _table(constants)\n    labels = _table(labels)\n")]),
+    ('p-asm-pass-loop', ['C11', 'C16'], [(A, "    items = resolve_instructions(items)\n    items = resolve_strings(items)\n    items = resolve_sequences(items)\n    items = transform_shorthand_packs(items)\n    items = resolve_packs(items)\n    items = resolve_include_bytes(items)\n",
+                                          "    for step in (resolve_instructions, resolve_strings, resolve_sequences, transform_shorthand_packs, resolve_packs, resolve_include_bytes):\n        items = step(items)\n")]),
+    ('p-asm-pass-lambdas', ['C11', 'C16'], [(A, "    items = resolve_constants(items, constants)\n    items = resolve_labels(items, labels)\n    items = resolve_register_aliases(items, constants)\n    if compress:\n        items = transform_compressible(items, constants, labels)\n    items = transform_pseudo_instructions(items, constants, labels)\n    items = resolve_register_aliases(items, constants)\n    if compress:\n        items = transform_compressible(items, constants, labels)\n",
+                                             "    squeeze = [lambda its: transform_compressible(its, constants, labels)] if compress else []\n    steps = [lambda its: resolve_constants(its, constants), lambda its: resolve_labels(its, labels), lambda its: resolve_register_aliases(its, constants)]\n    steps += squeeze\n    steps.append(lambda its: transform_pseudo_instructions(its, constants, labels))\n    steps.append(lambda its: resolve_register_aliases(its, constants))\n    steps += squeeze\n    for step in steps:\n        items = step(items)\n")]),
+    ('p-cwd-negated-test', ['C14', 'C16'], [(A, "    if is_path:\n        base_path = os.path.dirname(os.path.abspath(path_or_source))\n    else:\n        base_path = os.getcwd()", "    if not is_path:\n        base_path = os.getcwd()\n    else:\n        base_path = os.path.dirname(os.path.abspath(path_or_source))")]),
+    ('p-eval-globals-const', ['C11', 'C16'], [(A, "# basic arithmetic expression\n", "NO_BUILTINS = {'__builtins__': None}\n\n\n# basic arithmetic expression\n"),
+                                              (A, "            result = eval(self.expr, {'__builtins__': None}, env)", "            result = eval(self.expr, NO_BUILTINS, env)")]),
+    # ---- C11: helper methods, module-level field set, renamed parameters ---------------------------------------------------------
+    ('p-eval-char-helper', ['C11'], [(A, "    # be sure to not leak internal python exceptions out of this\n    def eval(self, position, env, line):\n        # check for single ASCII characters\n        if self.expr.startswith('\\'') and self.expr.endswith('\\''):\n            c = self.expr[1:-1]\n            c = c.encode('utf-8').decode('unicode_escape')\n            try:\n                return ord(c)\n            except TypeError:\n                raise AssemblerError('invalid char literal in expr: \"{}\"'.format(self.expr), line)\n",
+                                         "    def is_char(self):\n        return self.expr.startswith('\\'') and self.expr.endswith('\\'')\n\n    def char_value(self, line):\n        c = self.expr[1:-1]\n        c = c.encode('utf-8').decode('unicode_escape')\n        try:\n            return ord(c)\n        except TypeError:\n            raise AssemblerError('invalid char literal in expr: \"{}\"'.format(self.expr), line)\n\n    # be sure to not leak internal python exceptions out of this\n    def eval(self, position, env, line):\n        if self.is_char():\n            return self.char_value(line)\n")]),
+    ('p-eval-int-check-helper', ['C11'], [(A, "        # ensure resulting value is an integer\n        if type(result) != int:\n            s = 'result \"{}\" is not an integer from expr: \"{}\"'\n            s = s.format(result, self.expr)\n            raise AssemblerError(s, line)\n\n        return result\n",
+                                              "        return self.checked(result, line)\n\n    def checked(self, number, line):\n        # ensure resulting value is an integer\n        if type(number) is not int:\n            s = 'result \"{}\" is not an integer from expr: \"{}\"'\n            s = s.format(number, self.expr)\n            raise AssemblerError(s, line)\n        return number\n")]),
+    ('p-regs-module-const', ['C11'], [(A, "def resolve_register_aliases(items, constants):\n    REGS = {'rd', 'rs1', 'rs2', 'rd_rs1'}\n", "REGISTER_FIELDS = frozenset({'rd', 'rs1', 'rs2', 'rd_rs1'})\n\n\ndef resolve_register_aliases(items, constants):\n    REGS = REGISTER_FIELDS\n")]),
+    ('p-alias-type-rebuild', ['C11'], [(A, "        # create the new item using the resolved registers\n        new_item = item.__class__(*d.values())", "        # create the new item using the resolved registers\n        new_item = type(item)(*d.values())")]),
+    ('p-const-table-rename', ['C11'], [(A, "def resolve_constants(items, constants):", "def resolve_constants(items, table):"),
+                                       (A, "        env = ChainMap(constants, REGISTERS)", "        env = ChainMap(table, REGISTERS)"),
+                                       (A, "        constants[item.name] = value\n", "        table[item.name] = value\n")]),
+    ('p-imm-env-rename', ['C11'], [(A, "def resolve_immediates(items, constants, labels):", "def resolve_immediates(items, consts, symbols):"),
+                                   (A, "        # resolve the immediate field\n        env = ChainMap(constants, labels)", "        # resolve the immediate field\n        env = ChainMap(consts, symbols)")]),
+    ('p-shadow-keys-spelling', ['C11'], [(A, "        if item.name in REGISTERS:\n            s = 'constant name cannot shadow a register name \"{}\"'", "        if not (item.name not in REGISTERS.keys()):\n            s = 'constant name cannot shadow a register name \"{}\"'")]),
+    ('p-hi-eval-nested', ['C11'], [(A, "        value = self.expr.eval(position, env, line)\n        return relocate_hi(value)", "        return relocate_hi(self.expr.eval(position, env, line))")]),
+    ('p-alias-dictcomp', ['C11'], [(A, "    REGS = {'rd', 'rs1', 'rs2', 'rd_rs1'}\n\n    new_items = []\n    for item in items:\n        d = copy.deepcopy(vars(item))\n\n        # skip items without any register fields\n        if not set(d.keys()) & REGS:\n            new_items.append(item)\n            continue\n\n        # resolve all fields that are registers\n        modified = False\n        resolved_regs = {}\n        for key, value in d.items():\n            # skip if item field is not a register\n            if key not in REGS:\n                continue\n            # skip if reg is not a constant\n            if value not in constants:\n                continue\n            # reg IS a constant\n            modified = True\n            reg = constants[value]\n            resolved_regs[key] = reg\n\n        if not modified:\n            new_items.append(item)\n            continue\n\n        d.update(resolved_regs)\n", "    REGS = ('rd', 'rs1', 'rs2', 'rd_rs1')\n\n    new_items = []\n    for item in items:\n        d = copy.deepcopy(vars(item))\n\n        # register fields that name a constant\n        resolved_regs = {key: constants[value] for key, value in d.items() if key in REGS and value in constants}\n        if not resolved_regs:\n            new_items.append(item)\n            continue\n\n        d.update(resolved_regs)\n")]),
 ]
 
 # edits that move the code outside what the analysis can decide: the check must end with ANALYSIS-ERROR (exit 2),
 # neither pass nor claim a violation
 UNDECIDED = [
     ('c09-align-mod', ['C09'], [(A, "padding = self.alignment - (position % self.alignment)", "padding = self.alignment - (position % (self.alignment + 1))")]),
+    ('c17-labels-filtered', ['C17'], [(A, "        lines = ['{} 0x{:08x}\\n'.format(k, v) for k, v in labels.items()]", "        lines = ['{} 0x{:08x}\\n'.format(k, v) for k, v in labels.items() if not k.startswith('_')]")]),
+    ('c17-chunked-write', ['C17'], [(A, "        out_bin.write(binary)", "        for start in range(0, len(binary), 4096):\n            out_bin.write(binary[start:start + 4096])")]),
 ]
 
 
@@ -428,4 +560,216 @@ UNDECIDED += [
     ('u13-reg-startswith', ['C13'], [(A, _REG_TRY, "    if str(reg).startswith('0x'):\n        reg = int(reg, base=0)\n")]),
     ('u13-numbering-stripped-source', ['C13'], [(A, _RD_LOOP, "    for i, raw_line in enumerate(source.strip().splitlines(), start=1):\n")]),
     ('u13-split-literal-whitespace', ['C13'], [(A, _LEX_SPLIT, "    tokens = re.split(r'[ \\t,]+', contents)")]),
+]
+
+
+# ---- front-end wiring / pack rule: idioms of behaviour-preserving refactors (token flow through slices, helpers, parser
+# factories, dispatch tables; pack rule over paths) -----------------------------------------------------------------------------
+_U_ARM_OLD = "        name, rd, *imm = tokens\n        name = name.lower()\n        imm = parse_immediate(imm, line)\n        return UTypeInstruction(line, name, rd, imm)"
+_B_ARM_OLD = ("        name, rs1, rs2, reference = tokens\n        name = name.lower()\n        if is_int(reference):\n            imm = [reference]\n        else:\n"
+              "            # behavior is \"offset\" for branches to labels\n            imm = ['%offset', reference]\n        imm = parse_immediate(imm, line)\n"
+              "        return BTypeInstruction(line, name, rs1, rs2, imm)")
+_R_ARM_OLD = ("        if len(tokens) != 4:\n            raise AssemblerError('r-type instructions require exactly 3 args', line)\n        name, rd, rs1, rs2 = tokens\n"
+              "        name = name.lower()\n        return RTypeInstruction(line, name, rd, rs1, rs2)")
+_CR_ARM_OLD = ("    # cr-type instructions\n    elif head in CR_TYPE_INSTRUCTIONS:\n        if len(tokens) != 3:\n            raise AssemblerError('cr-type instructions require exactly 2 args', line)\n"
+               "        name, rd_rs1, rs2 = tokens\n        name = name.lower()\n        return CRTypeInstruction(line, name, rd_rs1, rs2)\n")
+_CA_ARM_OLD = ("    # ca-type instructions\n    elif head in CA_TYPE_INSTRUCTIONS:\n        if len(tokens) != 3:\n            raise AssemblerError('ca-type instructions require exactly 2 args', line)\n"
+               "        name, rd_rs1, rs2 = tokens\n        name = name.lower()\n        return CATypeInstruction(line, name, rd_rs1, rs2)\n")
+_PARSE_ITEM_DEF = "def parse_item(line_tokens):\n"
+_REFERENCE_HELPER = ("def parse_reference(reference, line):\n    if is_int(reference):\n        imm = [reference]\n    else:\n        imm = ['%offset', reference]\n"
+                     "    return parse_immediate(imm, line)\n\n\n")
+_FACTORY = ("def plain_args_parser(cls, count, message):\n    def parse(line, name, tokens):\n        if len(tokens) != 1 + count:\n            raise AssemblerError(message, line)\n"
+            "        return cls(line, name, *tokens[1:])\n    return parse\n\n\n")
+_LABEL_ARM = "    if len(tokens) == 1 and tokens[0].endswith(':'):"
+_TABLE_LOOP = ("    for names, parser in TWO_REG_PARSERS:\n        if head in names:\n            return parser(line, head, tokens)\n\n")
+_TABLE_DEF = ("TWO_REG_PARSERS = [\n    (CR_TYPE_INSTRUCTIONS, plain_args_parser(CRTypeInstruction, 2, 'cr-type instructions require exactly 2 args')),\n"
+              "    (CA_TYPE_INSTRUCTIONS, plain_args_parser(CATypeInstruction, 2, 'ca-type instructions require exactly 2 args')),\n]\n\n\n")
+_AQRL_OLD = "                *args, aq, rl = item.args()\n                code = encode_func(*args, aq=aq, rl=rl)"
+_ISA_OLD = "if isinstance(item, ATypeInstruction) or isinstance(item, ALTypeInstruction):"
+_FMT_OLD = "        if isinstance(item, CompressedInstruction):\n            fmt = '<H'\n        else:\n            fmt = '<I'\n"
+_RESOLVE_OLD = ("def resolve_instructions(items):\n    new_items = []\n\n    for item in items:\n        if not isinstance(item, Instruction):\n            new_items.append(item)\n            continue\n\n"
+                "        encode_func = INSTRUCTIONS[item.name]\n        try:\n            # atomic insts expect aq and rl as kwargs\n            " + _ISA_OLD + "\n" + _AQRL_OLD + "\n"
+                "            else:\n                args = item.args()\n                code = encode_func(*args)\n        except ValueError as e:\n            raise AssemblerError(str(e), item.line)\n\n"
+                "        # pack into 2 bytes if item is a CompressedInstruction, else 4\n" + _FMT_OLD + "\n        code = struct.pack(fmt, code)\n        blob = Blob(item.line, code)\n        new_items.append(blob)\n\n"
+                "        log_conversion('resolve_instructions', item, blob)\n\n    return new_items\n")
+_RESOLVE_CLOSURE = ("def convert_each(pass_name, items, item_type, convert):\n    new_items = []\n    for item in items:\n        if isinstance(item, item_type):\n            new_item = convert(item)\n"
+                    "            new_items.append(new_item)\n            log_conversion(pass_name, item, new_item)\n        else:\n            new_items.append(item)\n    return new_items\n\n\n"
+                    "def resolve_instructions(items):\n    def encode(item):\n        encode_func = INSTRUCTIONS[item.name]\n        try:\n"
+                    "            if isinstance(item, (ATypeInstruction, ALTypeInstruction)):\n                *args, aq, rl = item.args()\n                code = encode_func(*args, aq=aq, rl=rl)\n"
+                    "            else:\n                code = encode_func(*item.args())\n        except ValueError as e:\n            raise AssemblerError(str(e), item.line)\n"
+                    "        fmt = '<H' if isinstance(item, CompressedInstruction) else '<I'\n        return Blob(item.line, struct.pack(fmt, code))\n\n"
+                    "    return convert_each('resolve_instructions', items, Instruction, encode)\n")
+_WIRING_PROPS = None
+
+PRESERVING += [
+    ('p-parse-slice', _WIRING_PROPS, [(A, _U_ARM_OLD, "        name = tokens[0].lower()\n        return UTypeInstruction(line, name, tokens[1], parse_immediate(tokens[2:], line))")]),
+    ('p-parse-helper', _WIRING_PROPS, [(A, "# helper for parsing immediates since they occur in multiple places\n", _REFERENCE_HELPER + "# helper for parsing immediates since they occur in multiple places\n"),
+                                       (A, _B_ARM_OLD, "        name, rs1, rs2, reference = tokens\n        return BTypeInstruction(line, head, rs1, rs2, parse_reference(reference, line))")]),
+    ('p-parse-factory', _WIRING_PROPS, [(A, _PARSE_ITEM_DEF, _FACTORY + "parse_r_type = plain_args_parser(RTypeInstruction, 3, 'r-type instructions require exactly 3 args')\n\n\n" + _PARSE_ITEM_DEF),
+                                        (A, _R_ARM_OLD, "        return parse_r_type(line, head, tokens)")]),
+    ('p-parse-table-loop', _WIRING_PROPS, [(A, _PARSE_ITEM_DEF, _FACTORY + _TABLE_DEF + _PARSE_ITEM_DEF),
+                                           (A, _CR_ARM_OLD, ""), (A, _CA_ARM_OLD, ""),
+                                           (A, _LABEL_ARM, _TABLE_LOOP + _LABEL_ARM)]),
+    ('p-parse-early-returns', _WIRING_PROPS, [(A, "    # u-type instructions\n    elif head in U_TYPE_INSTRUCTIONS:", "    # u-type instructions\n    if head in U_TYPE_INSTRUCTIONS:")]),
+    ('p-pack-tuple-isinstance', None, [(A, _ISA_OLD, "if isinstance(item, (ATypeInstruction, ALTypeInstruction)):")]),
+    ('p-pack-ifexp', ['C01', 'C02'], [(A, _FMT_OLD, "        fmt = '<H' if isinstance(item, CompressedInstruction) else '<I'\n")]),
+    ('p-pack-size-table', ['C01', 'C02'], [(A, _FMT_OLD, "        fmt = {2: '<H', 4: '<I'}[item.size()]\n")]),
+    ('p-pack-slices', None, [(A, _AQRL_OLD, "                ops = item.args()\n                code = encode_func(*ops[:-2], aq=ops[-2], rl=ops[-1])")]),
+    ('p-pack-closure', ['C01', 'C02'], [(A, _RESOLVE_OLD, _RESOLVE_CLOSURE)]),
+]
+
+BREAKING += [
+    ('c01-parse-slice-off', ['C01'], [(A, _U_ARM_OLD, "        name = tokens[0].lower()\n        return UTypeInstruction(line, name, tokens[1], parse_immediate(tokens[1:], line))")]),
+    ('c01-parse-helper-raw', ['C01'], [(A, "# helper for parsing immediates since they occur in multiple places\n", _REFERENCE_HELPER.replace("    return parse_immediate(imm, line)", "    return imm[-1]") + "# helper for parsing immediates since they occur in multiple places\n"),
+                                       (A, _B_ARM_OLD, "        name, rs1, rs2, reference = tokens\n        return BTypeInstruction(line, head, rs1, rs2, parse_reference(reference, line))")]),
+    ('c01-parse-factory-rotated', ['C01'], [(A, _PARSE_ITEM_DEF, _FACTORY.replace("*tokens[1:]", "*tokens[2:], tokens[1]") + "parse_r_type = plain_args_parser(RTypeInstruction, 3, 'r-type instructions require exactly 3 args')\n\n\n" + _PARSE_ITEM_DEF),
+                                            (A, _R_ARM_OLD, "        return parse_r_type(line, head, tokens)")]),
+    ('c02-parse-table-wrong-class', ['C02'], [(A, _PARSE_ITEM_DEF, _FACTORY + _TABLE_DEF.replace("plain_args_parser(CATypeInstruction, 2,", "plain_args_parser(RTypeInstruction, 2,") + _PARSE_ITEM_DEF),
+                                              (A, _CR_ARM_OLD, ""), (A, _CA_ARM_OLD, ""),
+                                              (A, _LABEL_ARM, _TABLE_LOOP + _LABEL_ARM)]),
+    ('c01-pack-kw-for-rtype', ['C01'], [(A, _ISA_OLD, "if isinstance(item, (ATypeInstruction, ALTypeInstruction, RTypeInstruction)):")]),
+    ('c02-pack-one-compressed-class', ['C02'], [(A, _FMT_OLD, "        fmt = '<H' if isinstance(item, CRTypeInstruction) else '<I'\n")]),
+    ('c01-pack-rotated-args', ['C01'], [(A, "                args = item.args()\n                code = encode_func(*args)", "                args = item.args()\n                code = encode_func(*(args[1:] + args[:1]))")]),
+    ('c01-pack-closure-kw-swap', ['C01'], [(A, _RESOLVE_OLD, _RESOLVE_CLOSURE.replace("*args, aq, rl = item.args()", "*args, rl, aq = item.args()"))]),
+    ('c02-pack-closure-fmt', ['C02'], [(A, _RESOLVE_OLD, _RESOLVE_CLOSURE.replace("fmt = '<H' if isinstance(item, CompressedInstruction) else '<I'", "fmt = '<I' if isinstance(item, CompressedInstruction) else '<H'"))]),
+]
+
+_UTYPE_INIT = "class UTypeInstruction(Instruction):\n\n    def __init__(self, line, name, rd, imm):\n        super().__init__(line)\n        self.name = name\n        self.rd = rd\n        self.imm = imm"
+_UTYPE_INIT_SWAPPED = "class UTypeInstruction(Instruction):\n\n    def __init__(self, line, name, rd, imm):\n        super().__init__(line)\n        self.name = name\n        self.imm = imm\n        self.rd = rd"
+PRESERVING += [
+    # a keyword rebuild does not depend on the attribute order (other checks have their own, positional, reading of the rebuild)
+    ('p-rebuild-keyword', ['C01'], [(A, "new_item = item.__class__(*d.values())", "new_item = item.__class__(**d)", 'all'), (A, _UTYPE_INIT, _UTYPE_INIT_SWAPPED)]),
+]
+BREAKING += [
+    ('c01-rebuild-type-order', ['C01'], [(A, "new_item = item.__class__(*d.values())", "new_item = type(item)(*d.values())", 'all'), (A, _UTYPE_INIT, _UTYPE_INIT_SWAPPED)]),
+]
+
+_PACK_STMTS = "        code = struct.pack(fmt, code)\n        blob = Blob(item.line, code)\n        new_items.append(blob)\n\n        log_conversion('resolve_instructions', item, blob)"
+_SIZE_SEL = "        size = 2 if isinstance(item, CompressedInstruction) else 4\n"
+_RESOLVE_DEF = "def resolve_instructions(items):"
+_ENC_ARMS_OLD = "            " + _ISA_OLD + "\n" + _AQRL_OLD + "\n            else:\n                args = item.args()\n                code = encode_func(*args)"
+PRESERVING += [
+    ('p-pack-to-bytes', ['C01', 'C02'], [(A, _FMT_OLD, _SIZE_SEL), (A, _PACK_STMTS, _PACK_STMTS.replace("struct.pack(fmt, code)", "code.to_bytes(size, 'little')"))]),
+    ('p-pack-struct-const', ['C01', 'C02'], [(A, _RESOLVE_DEF, "WORD = struct.Struct('<I')\nHALF = struct.Struct('<H')\n\n\n" + _RESOLVE_DEF),
+                                             (A, _FMT_OLD, "        packer = HALF if isinstance(item, CompressedInstruction) else WORD\n"),
+                                             (A, _PACK_STMTS, _PACK_STMTS.replace("struct.pack(fmt, code)", "packer.pack(code)"))]),
+    ('p-pack-kwargs-dict', ['C01', 'C02'], [(A, _ENC_ARMS_OLD, "            args = item.args()\n            extra = {}\n            " + _ISA_OLD + "\n                extra = {'aq': args[-2], 'rl': args[-1]}\n                args = args[:-2]\n            code = encode_func(*args, **extra)")]),
+    ('p-pack-format-helper', ['C01', 'C02'], [(A, _RESOLVE_DEF, "def word_format(item):\n    if isinstance(item, CompressedInstruction):\n        return '<H'\n    return '<I'\n\n\n" + _RESOLVE_DEF),
+                                              (A, _FMT_OLD, "        fmt = word_format(item)\n")]),
+]
+BREAKING += [
+    ('c01-pack-to-bytes-big', ['C01'], [(A, _FMT_OLD, _SIZE_SEL), (A, _PACK_STMTS, _PACK_STMTS.replace("struct.pack(fmt, code)", "code.to_bytes(size, 'big')"))]),
+    ('c02-pack-struct-const-swapped', ['C02'], [(A, _RESOLVE_DEF, "WORD = struct.Struct('<I')\nHALF = struct.Struct('<H')\n\n\n" + _RESOLVE_DEF),
+                                                (A, _FMT_OLD, "        packer = WORD if isinstance(item, CompressedInstruction) else HALF\n"),
+                                                (A, _PACK_STMTS, _PACK_STMTS.replace("struct.pack(fmt, code)", "packer.pack(code)"))]),
+    ('c01-pack-kwargs-dict-swapped', ['C01'], [(A, _ENC_ARMS_OLD, "            args = item.args()\n            extra = {}\n            " + _ISA_OLD + "\n                extra = {'aq': args[-1], 'rl': args[-2]}\n                args = args[:-2]\n            code = encode_func(*args, **extra)")]),
+]
+
+_IMM_HELPER_ANCHOR = "# helper for parsing immediates since they occur in multiple places\n"
+_HILO_OLD = ("    elif head == '%hi':\n        if imm[1] == '(':\n            _, _, *imm, _ = imm\n        else:\n            _, *imm = imm\n        return Hi(parse_immediate(imm, line))\n"
+             "    elif head == '%lo':\n        if imm[1] == '(':\n            _, _, *imm, _ = imm\n        else:\n            _, *imm = imm\n        return Lo(parse_immediate(imm, line))\n")
+_HILO_DICT = "    elif head in RELOCATIONS:\n        inner = imm[2:-1] if imm[1] == '(' else imm[1:]\n        return RELOCATIONS[head](parse_immediate(inner, line))\n"
+PRESERVING += [
+    ('p-imm-wrapper-dict', None, [(A, _IMM_HELPER_ANCHOR, "RELOCATIONS = {'%hi': Hi, '%lo': Lo}\n\n\n" + _IMM_HELPER_ANCHOR), (A, _HILO_OLD, _HILO_DICT)]),
+    ('p-imm-strip-helper', None, [(A, _IMM_HELPER_ANCHOR, "def strip_modifier(imm):\n    if imm[1] == '(':\n        return imm[2:-1]\n    return imm[1:]\n\n\n" + _IMM_HELPER_ANCHOR),
+                                  (A, _HILO_OLD, "    elif head == '%hi':\n        return Hi(parse_immediate(strip_modifier(imm), line))\n    elif head == '%lo':\n        return Lo(parse_immediate(strip_modifier(imm), line))\n")]),
+    ('p-parse-dict-dispatch', None, [(A, _PARSE_ITEM_DEF, "def parse_u_type(line, name, tokens):\n    return UTypeInstruction(line, name, tokens[1], parse_immediate(tokens[2:], line))\n\n\nUPPER_PARSERS = {'lui': parse_u_type, 'auipc': parse_u_type}\n\n\n" + _PARSE_ITEM_DEF),
+                                     (A, "    # u-type instructions\n    elif head in U_TYPE_INSTRUCTIONS:\n" + _U_ARM_OLD + "\n", ""),
+                                     (A, _LABEL_ARM, "    parser = UPPER_PARSERS.get(head)\n    if parser is not None:\n        return parser(line, head, tokens)\n\n" + _LABEL_ARM)]),
+]
+BREAKING += [
+    ('c07-imm-wrapper-dict-swapped', ['C07'], [(A, _IMM_HELPER_ANCHOR, "RELOCATIONS = {'%hi': Lo, '%lo': Hi}\n\n\n" + _IMM_HELPER_ANCHOR), (A, _HILO_OLD, _HILO_DICT)]),
+    ('c01-parse-dict-dispatch-missing', ['C01'], [(A, _PARSE_ITEM_DEF, "def parse_u_type(line, name, tokens):\n    return UTypeInstruction(line, name, tokens[1], parse_immediate(tokens[2:], line))\n\n\nUPPER_PARSERS = {'lui': parse_u_type}\n\n\n" + _PARSE_ITEM_DEF),
+                                                  (A, "    # u-type instructions\n    elif head in U_TYPE_INSTRUCTIONS:\n" + _U_ARM_OLD + "\n", ""),
+                                                  (A, _LABEL_ARM, "    parser = UPPER_PARSERS.get(head)\n    if parser is not None:\n        return parser(line, head, tokens)\n\n" + _LABEL_ARM)]),
+]
+
+BREAKING += [
+    # a constructor that does not receive all of its operands (every such line dies with a TypeError)
+    ('c01-parse-missing-operand', ['C01'], [(A, "        return RTypeInstruction(line, name, rd, rs1, rs2)", "        return RTypeInstruction(line, name, rd, rs1)")]),
+    ('c01-parse-factory-count', ['C01'], [(A, _PARSE_ITEM_DEF, _FACTORY + "parse_r_type = plain_args_parser(RTypeInstruction, 2, 'r-type instructions require exactly 3 args')\n\n\n" + _PARSE_ITEM_DEF),
+                                          (A, _R_ARM_OLD, "        return parse_r_type(line, head, tokens)")]),
+]
+
+_CLS_FMT_EDITS = [(A, "class Instruction(Item):\n", "class Instruction(Item):\n\n    WORD_FORMAT = '<I'\n"), (A, _FMT_OLD, "        fmt = item.WORD_FORMAT\n")]
+PRESERVING += [
+    ('p-pack-class-attr', ['C01', 'C02'], _CLS_FMT_EDITS + [(A, "class CompressedInstruction(Instruction):\n", "class CompressedInstruction(Instruction):\n\n    WORD_FORMAT = '<H'\n")]),
+]
+BREAKING += [
+    ('c02-pack-class-attr-one-class', ['C02'], _CLS_FMT_EDITS + [(A, "class CRTypeInstruction(CompressedInstruction):\n", "class CRTypeInstruction(CompressedInstruction):\n\n    WORD_FORMAT = '<H'\n")]),
+]
+
+UNDECIDED += [
+    # the item class is looked up reflectively: which class a `lui` line becomes is not understood -> no verdict, no finding
+    ('u-parse-reflective-class', ['C01'], [(A, "        return UTypeInstruction(line, name, rd, imm)", "        return globals()['UTypeInstruction'](line, name, rd, imm)")]),
+    # the packed value is derived from, not equal to, the encoder's result: value ranges are outside the pack rule
+    ('u-pack-masked-word', ['C01'], [(A, "        code = struct.pack(fmt, code)\n        blob = Blob(item.line, code)", "        code = struct.pack(fmt, code & 0xffffffff)\n        blob = Blob(item.line, code)")]),
+]
+
+
+# -- round 2 (engine generalisations): local closures with nonlocal state, early continue, criteria extended by a loop over a
+#    literal tuple, negated-predicate factories, the xor sign-extension idiom and the rounding shift in relocate_hi ------------------
+_TC_PRELUDE = "    # used for imm evaluation\n    env = ChainMap(constants, labels)\n\n    position = 0\n    new_items = []\n    for item in items:\n        # skip non-instructions and pseudo-instructions\n        if not isinstance(item, Instruction) or isinstance(item, PseudoInstruction):\n            position += item.size()\n            new_items.append(item)\n            continue\n"
+_TC_EMIT = "    # used for imm evaluation\n    env = ChainMap(constants, labels)\n\n    position = 0\n    new_items = []\n\n    def emit(new_item):\n        nonlocal position\n        position += new_item.size()\n        new_items.append(new_item)\n\n    for item in items:\n        # skip non-instructions and pseudo-instructions\n        if not isinstance(item, Instruction) or isinstance(item, PseudoInstruction):\n            emit(item)\n            continue\n"
+_TC_TAIL = "            # add compressed inst to items and break the search loop\n            position += inst.size()\n            new_items.append(inst)\n"
+_TC_ELSE = "        else:\n            position += item.size()\n            new_items.append(item)\n\n    return new_items\n\n\ndef transform_pseudo_instructions"
+PRESERVING += [
+    ('p2-emit-closure', None, [(A, _TC_PRELUDE, _TC_EMIT), (A, _TC_TAIL, "            # add compressed inst to items and break the search loop\n            emit(inst)\n"),
+                               (A, _TC_ELSE, "        else:\n            emit(item)\n\n    return new_items\n\n\ndef transform_pseudo_instructions")]),
+    ('p2-sign-extend-xor', None, [(A, "def sign_extend(value, bits):\n", "def sign_extend(value, bits):\n    sign_bit = 1 << (bits - 1)\n    return ((value & ((sign_bit << 1) - 1)) ^ sign_bit) - sign_bit\n\n\ndef sign_extend_old(value, bits):\n")]),
+]
+BREAKING += [
+    # the closure advances the offset by the size of the *original* item while a (smaller) compressed one is emitted
+    ('c2-emit-closure-stale-size', ['C03', 'C08', 'C09'], [(A, _TC_PRELUDE, _TC_EMIT.replace("position += new_item.size()", "position += item.size()").replace("def emit(new_item):", "def emit(new_item, item=None):\n        item = item or new_item")),
+                                                          (A, _TC_TAIL, "            # add compressed inst to items and break the search loop\n            emit(inst, item)\n"),
+                                                          (A, _TC_ELSE, "        else:\n            emit(item)\n\n    return new_items\n\n\ndef transform_pseudo_instructions")]),
+    # xor idiom with the sign bit one position too high: values with bit (bits-1) set are no longer negative
+    ('c2-sign-extend-xor-wrong-bit', ['C07'], [(A, "def sign_extend(value, bits):\n", "def sign_extend(value, bits):\n    sign_bit = 1 << bits\n    return ((value & ((sign_bit << 1) - 1)) ^ sign_bit) - sign_bit\n\n\ndef sign_extend_old(value, bits):\n")]),
+]
+
+
+# after fix 075cc1d no compression rule for jalr looks at a label-dependent immediate any more: a predicate that only serves
+# addi / lui rules may evaluate the immediate directly (those items never carry is_auipc_jump)
+# (superseded by fix 372b5f8: the three remaining Imm* predicates now go through stable_immediate)
+_STABLE_JB = "        if isinstance(i, (JTypeInstruction, BTypeInstruction)) and isinstance(imm, Offset):\n            if imm.reference in labels and imm.reference not in constants:\n                return eval_immediate(i, p, e)\n"
+PRESERVING += [
+    ('p4-stable-rename', None, [(A, "        plain = imm.expr if isinstance(imm, (Hi, Lo)) else imm\n        if isinstance(plain, Arithmetic):", "        inner_expr = imm.expr if isinstance(imm, (Hi, Lo)) else imm\n        if isinstance(inner_expr, Arithmetic):")]),
+    ('p4-stable-merged-test', None, [(A, _STABLE_JB, "        if isinstance(i, (JTypeInstruction, BTypeInstruction)) and isinstance(imm, Offset) and imm.reference in labels and imm.reference not in constants:\n            return eval_immediate(i, p, e)\n")]),
+]
+BREAKING += [
+    # a pc-relative label offset taken as stable for every instruction (addi a0 a0 %offset(L): `!= 0` can stop holding)
+    ('c4-stable-offset-any-instruction', ['C12'], [(A, "        if isinstance(i, (JTypeInstruction, BTypeInstruction)) and isinstance(imm, Offset):", "        if isinstance(imm, Offset):")]),
+    # the "final" immediate evaluated against the live label table again
+    ('c4-stable-live-env', ['C12'], [(A, "                return imm.eval(p, constants, i.line)\n            except AssemblerError:\n                return None\n        # the target", "                return imm.eval(p, e, i.line)\n            except AssemblerError:\n                return None\n        # the target")]),
+    # one predicate back on the moving value
+    ('c4-imm-between-unstable', ['C12'], [(A, "            imm = stable_immediate(i, p, e)\n            return imm is not None and imm >= lo and imm <= hi", "            imm = eval_immediate(i, p, e)\n            return imm >= lo and imm <= hi")]),
+]
+BREAKING += [
+    # ... but the predicate that selects c.jr / c.jalr must not: without the Arithmetic guard a %lo immediate is judged again
+    ('c3-immequals-no-arith-guard', ['C03', 'C04'], [(A, "            if not isinstance(i.imm, Arithmetic):\n                return False\n            try:\n                imm = i.imm.eval(p, constants, i.line)",
+                                                     "            try:\n                imm = i.imm.eval(p, ChainMap(constants, labels), i.line)")]),
+    ('c3-immequals-live-env', ['C03', 'C04'], [(A, "                imm = i.imm.eval(p, constants, i.line)\n            except AssemblerError:", "                imm = i.imm.eval(p, e, i.line)\n            except AssemblerError:")]),
+]
+
+
+# variants of the properties that are maintained separately (see the module docstrings)
+from . import variants_c10_c14 as _c10_c14  # noqa: E402
+
+BREAKING += _c10_c14.BREAKING
+PRESERVING += _c10_c14.PRESERVING
+UNDECIDED += _c10_c14.UNDECIDED
+# encoder-interpreter idioms (helper- and table-driven encoders) live in their own module
+from .variants_enc import BREAKING as _ENC_BREAKING, PRESERVING as _ENC_PRESERVING, UNDECIDED as _ENC_UNDECIDED  # noqa: E402
+BREAKING += _ENC_BREAKING
+PRESERVING += _ENC_PRESERVING
+UNDECIDED += _ENC_UNDECIDED
+
+# defaulting of the caller's tables written as a statement
+_LBL_DEFAULT = "    labels = labels if labels is not None else {}\n"
+PRESERVING += [
+    ('p4-labels-default-stmt', None, [(A, _LBL_DEFAULT, "    if labels is None:\n        labels = {}\n")]),
+]
+BREAKING += [
+    ('c4-labels-default-inverted', ['C03', 'C08'], [(A, _LBL_DEFAULT, "    if labels is not None:\n        labels = {}\n")]),
+    ('c4-labels-always-fresh', ['C03', 'C08'], [(A, _LBL_DEFAULT, "    labels = {}\n")]),
 ]
